@@ -36,6 +36,19 @@ def canonRestored (s : State) : State :=
   let c := canonState s
   { c with dbs := c.dbs.map fun (i, d) => (i, (⟨d.store, d.vol.mergeSort bytesLe⟩ : Db)) }
 
+/-- values for which `KeyData.GetMem` fails (`[]interface{}`, what JSON makes of a stored list): FLUSHDB skips such a key
+    when it deducts the accounted sizes, DEL refuses it. The model gives them size 0 and says no command touches them
+    (Model/Value.lean); a restore that replays a FLUSHDB over them leaves the *memory figure* outside the modelled domain —
+    the dataset is still compared. -/
+def hasMemErrVal (ds : List (Nat × List (Bytes × Entry))) : Bool :=
+  ds.any fun (_, kes) => kes.any fun (_, e) => match e.val with
+    | .ilist _ => true
+    | _ => false
+
+def sameRestored (memUnmodelled : Bool) (a c : State) : Bool :=
+  canonRestored a == canonRestored c ||
+    (memUnmodelled && canonRestored { a with mem := 0 } == canonRestored { c with mem := 0 })
+
 def isRelExpiry (cmd : List Bytes) : Bool :=
   let n := toLower (cmd.headD [])
   let opts := (cmd.drop 2).map toLower
@@ -155,7 +168,8 @@ def verdictAof (id point : String) (now2 : Int) (inj stuck : Bool) (nrw : Nat) :
   let m := if hasRandom then Restored.unmod "SPOP re-executed with a fresh random choice" else restore now2 preDs logB
   let modelV : String := match m, kind, r with
     | .ok s, "ok", some rs =>
-      if canonRestored s == canonRestored rs then "OK" else "DIFF restored-state model=" ++ ((toString (repr (canonRestored s).dbs)).replace "\n" " ") ++ " impl=" ++ ((toString (repr (canonRestored rs).dbs)).replace "\n" " ")
+      let flushReplayed := (parseLog (logB.length + 1) logB).1.any fun c => toLower (c.headD []) == b "flushdb"
+      if sameRestored (flushReplayed && hasMemErrVal (preDs.getD [])) s rs then "OK" else "DIFF restored-state model=" ++ ((toString (repr (canonRestored s).dbs)).replace "\n" " ") ++ s!" mem={s.mem} impl=" ++ ((toString (repr (canonRestored rs).dbs)).replace "\n" " ") ++ s!" mem={rs.mem}"
     | .panic, "panic", _ => "OK"
     | .unmod w, _, _ => s!"SKIP {w}"
     | m, k, _ => s!"DIFF restore-outcome model={showRestored m} impl={k}"
